@@ -87,6 +87,10 @@ package exif2
 //@   ensures [C03 C04 C08] err == nil ==> forall k int :: 0 <= k && k < n ==> buf[k] == data(ir.reader, old(pos(ir.reader)) + k)
 //@   ensures [C03] err == nil ==> ir.po == old(ir.po) + uint32(n)
 //@   ensures [C03 C04] err != nil ==> forall k int :: 0 <= k && k < len(buf) ==> buf[k] == data(ir.reader, pos(ir.reader) + k)
+// completeness (unbuffered path; the buffered interface may refuse for reasons of its own, e.g. a box limit): a read of bytes that
+// the stream holds, from a reader that never failed, is refused only because it ends beyond the block - a value that ends exactly
+// at the end of the block is read, however the reader chunks it and however it signals the end of the stream
+//@   ensures [C03 C08] err != nil && !implements(ir.reader, "BufferedReader") && !fault(ir.reader) && old(pos(ir.reader)) + n <= lim(ir.reader) && n <= 1024 ==> ir.exifLength != 0 && int(old(ir.po)) + n > int(ir.exifLength)
 
 //@ func (*ifdReader).discard
 //@   props C01 C02 C08 C06 C03
